@@ -289,6 +289,58 @@ pub fn sign(unsigned: &[u8], key: &Key, key_name_on_wire: &Labels, time: u64, fu
     attach(unsigned, &rr)
 }
 
+/// Sign an unsigned message with EVERY TSIG variable taken from `shape` (key name as spelled
+/// there, CLASS, TTL, algorithm name, time, fudge, original id, error, other data; its `mac` is
+/// ignored). RFC 8945 4.3.3: the digest covers [prior MAC, length-prefixed] | the message with the
+/// ORIGINAL id in its header | the TSIG variables - or, for the second and later messages of a
+/// multi-message response (5.3.1, `timers_only`), | time signed | fudge only. The message on the
+/// wire keeps its own header id.
+pub fn sign_shaped(unsigned: &[u8], key: &Key, shape: &TsigRr, prior_mac: Option<&[u8]>, timers_only: bool) -> Vec<u8> {
+    let mut rr = shape.clone();
+    rr.mac = key.mac(&shaped_digest_input(unsigned, &rr, prior_mac, timers_only));
+    attach(unsigned, &rr)
+}
+
+/// The digest input `sign_shaped` uses (exposed for the independent-MAC differential).
+pub fn shaped_digest_input(unsigned: &[u8], shape: &TsigRr, prior_mac: Option<&[u8]>, timers_only: bool) -> Vec<u8> {
+    let mut d = vec![];
+    if let Some(m) = prior_mac {
+        d.extend_from_slice(&(m.len() as u16).to_be_bytes());
+        d.extend_from_slice(m);
+    }
+    d.extend_from_slice(&shape.orig_id.to_be_bytes());
+    d.extend_from_slice(&unsigned[2..]);
+    if timers_only {
+        d.extend_from_slice(&((shape.time >> 32) as u16).to_be_bytes());
+        d.extend_from_slice(&(shape.time as u32).to_be_bytes());
+        d.extend_from_slice(&shape.fudge.to_be_bytes());
+    } else {
+        d.extend_from_slice(&shape.variables());
+    }
+    d
+}
+
+/// Verify the second or a later message of a multi-message response (RFC 8945 5.3.1): digest =
+/// prior MAC (length-prefixed) | message | time signed | fudge.
+pub fn verify_subsequent(msg: &[u8], key: &Key, now: u64, prior_mac: &[u8]) -> Result<(), Reject> {
+    let s = split(msg)?;
+    if !(eq_ci(&key.name, &s.tsig.name) && eq_ci(&key.alg.labels(), &s.tsig.alg_name)) {
+        return Err(Reject::BadKey);
+    }
+    if s.tsig.mac.len() != key.alg.output_len() {
+        return Err(Reject::MacLength(s.tsig.mac.len()));
+    }
+    let unsigned = strip(msg, &s);
+    if key.mac(&shaped_digest_input(&unsigned, &s.tsig, Some(prior_mac), true)) != s.tsig.mac {
+        return Err(Reject::BadSig);
+    }
+    let (t, n, f) = (s.tsig.time as i128, now as i128, s.tsig.fudge as i128);
+    if (n - t).abs() > f {
+        return Err(Reject::BadTime);
+    }
+    Ok(())
+}
+
 #[cfg(test)]
 mod tests {
     use super::*;
@@ -307,6 +359,17 @@ mod tests {
         assert_eq!(verify_request(&t, &[k.clone()], 1000), Err(Reject::BadSig));
         let mut u = s.clone();
         u.push(0);
-        assert!(matches!(verify_request(&u, &[k], 1000), Err(Reject::Malformed(_))));
+        assert!(matches!(verify_request(&u, &[k.clone()], 1000), Err(Reject::Malformed(_))));
+        // every variable at a non-default value; original id differs from the header id
+        let shape = TsigRr { name: labels_of("K1."), class: 255, ttl: 0, alg_name: k.alg.labels(), time: 1000, fudge: 7, mac: vec![], orig_id: 0x4242, error: 18, other: vec![1, 2, 3, 4, 5, 6] };
+        let x = sign_shaped(&m, &k, &shape, None, false);
+        assert_eq!(verify_request(&x, &[k.clone()], 1003), Ok(0));
+        let mut y = x.clone();
+        let n = y.len();
+        y[n - 1] ^= 1; // last octet of the other data
+        assert_eq!(verify_request(&y, &[k.clone()], 1003), Err(Reject::BadSig));
+        let z = sign_shaped(&m, &k, &shape, Some(&[9; 32]), true);
+        assert_eq!(verify_subsequent(&z, &k, 1003, &[9; 32]), Ok(()));
+        assert_eq!(verify_subsequent(&z, &k, 1003, &[8; 32]), Err(Reject::BadSig));
     }
 }
